@@ -293,7 +293,7 @@ func BuildRunModel(c *core.Ctx, h *core.Handler, fn *ssa.Function) *RunModel {
 		m.Data = fn.Params[0]
 	}
 	if m.Tx != nil {
-		m.TxPath = m.Tx.Name()
+		m.TxPath = core.ParamName(m.Tx)
 	} else {
 		// RunTx: tx is the first result of the decoder call
 		for _, s := range core.Sites(fn) {
